@@ -26,6 +26,7 @@ use crate::util::{hex, nat_list, unhex};
 use crate::{Ctx, Tier};
 use futures::StreamExt;
 use scylla::client::caching_session::CachingSession;
+use scylla::client::Compression;
 use scylla::client::session::Session;
 use scylla::client::session_builder::SessionBuilder;
 use scylla::errors::{NextPageError, NextRowError, PagerExecutionError, RequestAttemptError, RequestError};
@@ -58,6 +59,9 @@ struct PageSpec {
     /// `:B<n>`: the RESULT body of this page is exactly `n` bytes (rows then carry a blob column; the last
     /// row's blob is padded to reach the size) - page SIZE as a dimension (frames around and above 1 MiB)
     body_bytes: Option<usize>,
+    /// `:Z<n>`: every row of this page carries a blob of `n` ZERO bytes - a highly compressible page (an LZ4
+    /// block expands at most 255:1; `n` steers the ratio: ~1000 -> 64:1, 4096 -> 146:1, 65536 -> 240:1)
+    zero_blob: Option<usize>,
 }
 
 #[derive(Clone, Copy, Debug, PartialEq)]
@@ -100,6 +104,8 @@ struct Case {
     /// when asked to or when the id presented is stale)
     ext: bool,
     always_full: bool,
+    /// frame compression negotiated by the client (the node then compresses every page it serves)
+    comp: Option<Compression>,
     skip: bool,
     consumer: Consumer,
     pages: Vec<PageSpec>,
@@ -120,9 +126,10 @@ fn fmt_page(p: &PageSpec) -> String {
         fmt_state(&p.state),
         f,
         if p.meta_change { ":m" } else { "" },
-        match p.body_bytes {
-            Some(n) => format!(":B{}", n),
-            None => String::new(),
+        match (p.body_bytes, p.zero_blob) {
+            (Some(n), _) => format!(":B{}", n),
+            (None, Some(n)) => format!(":Z{}", n),
+            (None, None) => String::new(),
         }
     )
 }
@@ -180,11 +187,16 @@ fn parse_case(line: &str) -> Option<Case> {
     // composite partition key is too long to compute a token for
     let pk_error = w[0] == "pgk" || w[0] == "sessk";
     let ctl = w[0] == "ctl";
-    let (skip, ext, always_full) = match w[1] {
-        "0" => (false, false, false),
-        "1" => (true, false, false),
-        "2" => (false, true, false),
-        "3" => (false, true, true),
+    // modes 4..7: frame COMPRESSION negotiated (4 = LZ4, 5 = Snappy, 6 / 7 = the same with cached result metadata)
+    let (skip, ext, always_full, comp) = match w[1] {
+        "0" => (false, false, false, None),
+        "1" => (true, false, false, None),
+        "2" => (false, true, false, None),
+        "3" => (false, true, true, None),
+        "4" => (false, false, false, Some(Compression::Lz4)),
+        "5" => (false, false, false, Some(Compression::Snappy)),
+        "6" => (true, false, false, Some(Compression::Lz4)),
+        "7" => (true, false, false, Some(Compression::Snappy)),
         _ => return None,
     };
     let consumer = match w[2] {
@@ -202,12 +214,14 @@ fn parse_case(line: &str) -> Option<Case> {
         if parts.len() < 3 || parts.len() > 5 {
             return None;
         }
-        let (mut meta_change, mut body_bytes) = (false, None);
+        let (mut meta_change, mut body_bytes, mut zero_blob) = (false, None, None);
         for extra in &parts[3..] {
             if *extra == "m" && !meta_change {
                 meta_change = true;
-            } else if extra.starts_with('B') && body_bytes.is_none() {
+            } else if extra.starts_with('B') && body_bytes.is_none() && zero_blob.is_none() {
                 body_bytes = Some(extra[1..].parse::<usize>().ok().filter(|n| *n <= 16 << 20)?);
+            } else if extra.starts_with('Z') && body_bytes.is_none() && zero_blob.is_none() {
+                zero_blob = Some(extra[1..].parse::<usize>().ok().filter(|n| *n <= 16 << 20)?);
             } else {
                 return None;
             }
@@ -215,9 +229,9 @@ fn parse_case(line: &str) -> Option<Case> {
         let rows: usize = parts[0].parse().ok()?;
         let state = if parts[1] == "." { None } else { Some(unhex(parts[1])?) };
         let faults: Vec<char> = if parts[2] == "-" { vec![] } else { parts[2].chars().collect() };
-        pages.push(PageSpec { rows, state, faults, meta_change, body_bytes });
+        pages.push(PageSpec { rows, state, faults, meta_change, body_bytes, zero_blob });
     }
-    if ext && pages.iter().any(|p| p.body_bytes.is_some()) {
+    if ext && pages.iter().any(|p| p.body_bytes.is_some() || p.zero_blob.is_some()) {
         return None; // sized pages use their own fixed columns (a int, c blob)
     }
     if !ext && pages.iter().any(|p| p.meta_change) {
@@ -244,7 +258,10 @@ fn parse_case(line: &str) -> Option<Case> {
     {
         return None;
     }
-    Some(Case { session, downgrading, unprepared, with_values, caching, pk_error, ctl, sharded, cluster, idempotent, ext, always_full, skip, consumer, pages })
+    if comp.is_some() && (cluster > 0 || ctl) {
+        return None; // compression is scripted for the single-node families
+    }
+    Some(Case { session, downgrading, unprepared, with_values, caching, pk_error, ctl, sharded, cluster, idempotent, ext, always_full, comp, skip, consumer, pages })
 }
 
 // ---------------------------------------------------------------------------------------------
@@ -280,6 +297,8 @@ struct Script {
     /// sized pages: the statement's columns are (a int, c blob); blob length of every row sent
     big: bool,
     sent_blob_lens: Vec<usize>,
+    /// compression negotiated with the client: pages are sent as compressed frames
+    comp: Option<Compression>,
     /// `kill<k>`: (request index at the time of the kill, node stopped)
     killed: Option<(usize, usize)>,
     /// `ctl`: the page script is the answer to the CONTROL CONNECTION's system.peers query (rows = peers)
@@ -307,6 +326,26 @@ fn big_cols() -> Vec<Col> {
 /// Blob of row `n` (sized pages): every byte depends on the row and on its position.
 fn blob_of(n: i32, len: usize) -> Vec<u8> {
     (0..len).map(|i| ((n as usize).wrapping_mul(131).wrapping_add(i.wrapping_mul(7)) % 251) as u8).collect()
+}
+
+/// A RESULT frame for a page: compressed (frame flag 0x01; LZ4: 4-byte big-endian uncompressed length +
+/// one LZ4 block, Snappy: one raw Snappy block - native_protocol_v4 section 5) when compression was negotiated.
+fn page_frame(comp: Option<Compression>, stream: i16, body: Vec<u8>) -> Action {
+    let compressed = match comp {
+        None => return Action::Respond(RESP_RESULT, body),
+        Some(Compression::Lz4) => {
+            let mut b = (body.len() as u32).to_be_bytes().to_vec();
+            b.extend_from_slice(&lz4_flex::compress(&body));
+            b
+        }
+        Some(Compression::Snappy) => snap::raw::Encoder::new().compress_vec(&body).unwrap(),
+    };
+    let mut f = vec![0x84, 0x01];
+    f.extend_from_slice(&stream.to_be_bytes());
+    f.push(RESP_RESULT);
+    f.extend_from_slice(&(compressed.len() as u32).to_be_bytes());
+    f.extend_from_slice(&compressed);
+    Action::Raw(f)
 }
 
 fn metadata_id(v: usize) -> Vec<u8> {
@@ -428,22 +467,48 @@ fn body_node_rows(local: bool, no_metadata: bool) -> Vec<u8> {
 /// acknowledged or refused.
 fn handler(script: Arc<Mutex<Script>>, min_conn: Arc<AtomicUsize>, ext: bool) -> Handler {
     let mut inner = handler_inner(Arc::clone(&script), min_conn, ext);
-    Box::new(move |req: &Request| match &req.parsed {
-        Parsed::Query { text, params } if md5ish(text) == script.lock().unwrap().statement_id => {
-            let as_execute = Request {
-                parsed: Parsed::Execute { id: md5ish(text), result_metadata_id: None, params: params.clone() },
-                ..req.clone()
+    Box::new(move |req0: &Request| {
+        // with compression negotiated the client compresses its request bodies (frame flag 0x01): decompress
+        // with the reference codecs and parse again
+        let plain;
+        let req = if req0.flags & 0x01 == 0 {
+            req0
+        } else {
+            let comp = script.lock().unwrap().comp;
+            let body = match comp {
+                Some(Compression::Lz4) if req0.body.len() >= 4 => {
+                    let n = u32::from_be_bytes([req0.body[0], req0.body[1], req0.body[2], req0.body[3]]) as usize;
+                    lz4_flex::decompress(&req0.body[4..], n).unwrap_or_default()
+                }
+                Some(Compression::Snappy) => snap::raw::Decoder::new().decompress_vec(&req0.body).unwrap_or_default(),
+                _ => Vec::new(),
             };
-            inner(&as_execute)
-        }
-        Parsed::Query { text, .. } if text.starts_with("USE ") => {
-            if script.lock().unwrap().use_fails {
-                vec![Action::Respond(RESP_ERROR, body_error(0x2200, "no such keyspace", &[]))]
-            } else {
-                vec![Action::Respond(RESP_RESULT, body_set_keyspace(text[4..].trim().trim_matches('"')))]
+            plain = Request { parsed: parse_request(req0.opcode, &body, ext), body, flags: req0.flags & !0x01, ..req0.clone() };
+            // what the mock node would have answered itself, had it been able to read the frame
+            match &plain.parsed {
+                Parsed::Register(_) => return vec![Action::Respond(RESP_READY, vec![])],
+                Parsed::Options => return vec![Action::Respond(RESP_SUPPORTED, body_supported(ext, None))],
+                _ => {}
             }
+            &plain
+        };
+        match &req.parsed {
+            Parsed::Query { text, params } if md5ish(text) == script.lock().unwrap().statement_id => {
+                let as_execute = Request {
+                    parsed: Parsed::Execute { id: md5ish(text), result_metadata_id: None, params: params.clone() },
+                    ..req.clone()
+                };
+                inner(&as_execute)
+            }
+            Parsed::Query { text, .. } if text.starts_with("USE ") => {
+                if script.lock().unwrap().use_fails {
+                    vec![Action::Respond(RESP_ERROR, body_error(0x2200, "no such keyspace", &[]))]
+                } else {
+                    vec![Action::Respond(RESP_RESULT, body_set_keyspace(text[4..].trim().trim_matches('"')))]
+                }
+            }
+            _ => inner(req),
         }
-        _ => inner(req),
     })
 }
 
@@ -688,8 +753,16 @@ fn handler_inner(script: Arc<Mutex<Script>>, min_conn: Arc<AtomicUsize>, ext: bo
                 // scripted number of bytes
                 let values = s.sent.last().unwrap().clone();
                 let mut lens = vec![8usize; values.len()];
+                let zero = s.pages.get(pos).and_then(|p| p.zero_blob);
+                if let Some(z) = zero {
+                    lens = vec![z; values.len()];
+                }
                 let make = |lens: &[usize]| -> Vec<Vec<Option<Vec<u8>>>> {
-                    values.iter().zip(lens.iter()).map(|(v, l)| vec![Some(v.to_be_bytes().to_vec()), Some(blob_of(*v, *l))]).collect()
+                    values
+                        .iter()
+                        .zip(lens.iter())
+                        .map(|(v, l)| vec![Some(v.to_be_bytes().to_vec()), Some(if zero.is_some() { vec![0u8; *l] } else { blob_of(*v, *l) })])
+                        .collect()
                 };
                 if let (Some(target), Some(last)) = (s.pages.get(pos).and_then(|p| p.body_bytes), lens.len().checked_sub(1)) {
                     let base = body_rows(&rm, &make(&lens)).len();
@@ -698,7 +771,7 @@ fn handler_inner(script: Arc<Mutex<Script>>, min_conn: Arc<AtomicUsize>, ext: bo
                     }
                 }
                 s.sent_blob_lens.extend(lens.iter().copied());
-                actions.push(Action::Respond(RESP_RESULT, body_rows(&rm, &make(&lens))));
+                actions.push(page_frame(s.comp, req.stream, body_rows(&rm, &make(&lens))));
                 return actions;
             }
             if s.ctl {
@@ -706,7 +779,7 @@ fn handler_inner(script: Arc<Mutex<Script>>, min_conn: Arc<AtomicUsize>, ext: bo
                 actions.push(Action::Respond(RESP_RESULT, body_peer_rows(params.skip_metadata, rm.paging_state.as_deref(), &values)));
                 return actions;
             }
-            actions.push(Action::Respond(RESP_RESULT, body_rows(&rm, &rows)));
+            actions.push(page_frame(s.comp, req.stream, body_rows(&rm, &rows)));
             actions
         }
         _ => vec![Action::Respond(RESP_ERROR, body_error(0x2200, "invalid", &[]))],
@@ -749,8 +822,7 @@ struct Env {
 thread_local! {
     static RT: tokio::runtime::Runtime = tokio::runtime::Builder::new_current_thread().enable_all().build().unwrap();
     /// one environment per (session?, metadata-id extension?)
-    static ENVS: RefCell<[Option<Env>; 16]> =
-        const { RefCell::new([None, None, None, None, None, None, None, None, None, None, None, None, None, None, None, None]) };
+    static ENVS: RefCell<Vec<Option<Env>>> = const { RefCell::new(Vec::new()) };
     static CASE_NO: std::cell::Cell<u64> = const { std::cell::Cell::new(0) };
     static HANGS: std::cell::Cell<u32> = const { std::cell::Cell::new(0) };
 }
@@ -812,7 +884,7 @@ thread_local! {
 }
 
 fn conv_big(r: (i32, Vec<u8>)) -> (i32, u8) {
-    let ok = r.1 == blob_of(r.0, r.1.len());
+    let ok = r.1 == blob_of(r.0, r.1.len()) || r.1.iter().all(|b| *b == 0);
     BLOB_LENS.with(|b| b.borrow_mut().push(r.1.len()));
     (r.0, if ok { 2 } else { 255 })
 }
@@ -1020,6 +1092,13 @@ async fn run_case(case: &Case, ctx: &mut Ctx) -> String {
         return "bad-case".to_owned();
     }
     let slot = if case.ctl { 0 } else if case.caching { 8 + case.ext as usize } else if case.cluster > 0 && case.sharded { 11 + case.cluster } else if case.cluster > 0 { 3 + case.cluster } else { (case.session as usize) * 2 + case.ext as usize };
+    let slot = slot + 16 * match case.comp { None => 0, Some(Compression::Lz4) => 1, Some(Compression::Snappy) => 2 };
+    ENVS.with(|e| {
+        let mut e = e.borrow_mut();
+        if e.len() < 48 {
+            e.resize_with(48, || None);
+        }
+    });
     let mut env = if case.ctl { None } else { ENVS.with(|e| e.borrow_mut()[slot].take()) };
     if env.is_none() {
         let script = Arc::new(Mutex::new(Script::default()));
@@ -1046,7 +1125,8 @@ async fn run_case(case: &Case, ctx: &mut Ctx) -> String {
             ext: case.ext,
             always_full: case.always_full,
             ctl: case.ctl,
-            big: case.pages.iter().any(|p| p.body_bytes.is_some()),
+            big: case.pages.iter().any(|p| p.body_bytes.is_some() || p.zero_blob.is_some()),
+            comp: case.comp,
             applied: vec![false; case.pages.len()],
             ..Default::default()
         };
@@ -1092,6 +1172,7 @@ async fn run_case(case: &Case, ctx: &mut Ctx) -> String {
             // the handler; default execution profile (DefaultRetryPolicy, no speculative execution)
             let session = match SessionBuilder::new()
                 .known_node_addr(node.addr)
+                .compression(case.comp)
                 .fetch_schema_metadata(false)
                 .build()
                 .await
@@ -1104,7 +1185,7 @@ async fn run_case(case: &Case, ctx: &mut Ctx) -> String {
             };
             env.conn = Some(if case.caching { Client::Cache(CachingSession::from(session, 64)) } else { Client::Sess(session) });
         } else {
-            let conn = match VerifConn::open(node.addr, VerifConnOptions::default()).await {
+            let conn = match VerifConn::open(node.addr, VerifConnOptions { compression: case.comp, ..Default::default() }).await {
                 Ok(c) => c,
                 Err(e) => {
                     ctx.fail(format!("harness: cannot open connection: {e}"));
@@ -1165,7 +1246,7 @@ async fn run_case(case: &Case, ctx: &mut Ctx) -> String {
     let consumer = case.consumer;
     let case_ext = case.ext;
     let case_ctl = case.ctl;
-    let case_big = case.pages.iter().any(|p| p.body_bytes.is_some());
+    let case_big = case.pages.iter().any(|p| p.body_bytes.is_some() || p.zero_blob.is_some());
     let progress = AtomicUsize::new(0);
     let env_node = &env.node;
     let body = async {
@@ -1780,6 +1861,7 @@ fn build(sizes: &[usize], sts: &[Vec<u8>], faults: &[Vec<char>]) -> Vec<PageSpec
             faults: faults.get(i).cloned().unwrap_or_default(),
             meta_change: false,
             body_bytes: None,
+            zero_blob: None,
         })
         .collect()
 }
@@ -1818,6 +1900,85 @@ pub fn generate(rng: &mut Rng, tier: Tier, emit: &mut dyn FnMut(String)) {
     gen_dead_coordinator(rng, tier == Tier::Thorough, emit);
     gen_entry_points(rng, tier == Tier::Thorough, emit);
     gen_big_pages(rng, tier == Tier::Thorough, emit);
+    gen_compressed(rng, tier == Tier::Thorough, emit);
+}
+
+/// Frame COMPRESSION as a dimension (modes 4..7: LZ4 / Snappy negotiated, the node compresses every page):
+/// ordinary scripts, and pages of highly repetitive rows (`:Z<n>`: blobs of n zero bytes) whose LZ4 ratio lies
+/// below / around / above 64:1 and close to the format's maximum of 255:1 - as first, middle and last page,
+/// with the unchanged rows oracle.
+fn gen_compressed(rng: &mut Rng, thorough: bool, emit: &mut dyn FnMut(String)) {
+    let set_mode = |line: String, mode: usize| -> String {
+        let mut w: Vec<String> = line.split(' ').map(|x| x.to_owned()).collect();
+        w[1] = mode.to_string();
+        w.join(" ")
+    };
+    let kinds = ["pg", "sess", "squery", "scache", "sessdg", "squeryv"];
+    // (rows per page, zero-blob bytes): ratio ~ (n + 12) / (n / 255 + 12)
+    let zs: Vec<(usize, usize)> = if thorough {
+        vec![(2000, 256), (50, 700), (50, 1000), (50, 1100), (50, 1300), (40, 2048), (30, 4096), (20, 16384), (10, 65536), (3, 1 << 20), (1, 4 << 20)]
+    } else {
+        vec![(2000, 256), (50, 1000), (50, 1300), (30, 4096), (10, 65536), (2, 1 << 20)]
+    };
+    let mut tick = 0usize;
+    for (rows, z) in &zs {
+        for pos in 0..3usize {
+            for mode in [4usize, 5, 6] {
+                tick += 1;
+                if !thorough && tick % 2 == 0 && mode != 4 {
+                    continue;
+                }
+                let kind = kinds[tick % kinds.len()];
+                let mut sizes: Vec<usize> = (0..3).map(|_| 1 + rng.below(3) as usize).collect();
+                sizes[pos] = *rows;
+                let sts = states(rng, 3, false);
+                let mut faults = vec![vec![]; 3];
+                if tick % 6 == 0 {
+                    faults[pos] = vec![if kind == "squery" { 'R' } else { 'u' }];
+                }
+                let mut pages = build(&sizes, &sts, &faults);
+                pages[pos].zero_blob = Some(*z);
+                if tick % 3 == 0 {
+                    pages[(pos + 1) % 3].zero_blob = Some(1 + rng.below(3000) as usize);
+                }
+                let consumer = match tick % 7 {
+                    0 => Consumer::Slow,
+                    1 => Consumer::Timed,
+                    _ => Consumer::Eager,
+                };
+                emit(set_mode(with_kind(fmt_case(false, consumer, &pages), kind), mode));
+            }
+        }
+    }
+    // ordinary scripts under compression (int rows; faults; drops)
+    for _ in 0..(if thorough { 6_000 } else { 500 }) {
+        let n = 1 + rng.below(8) as usize;
+        let sizes: Vec<usize> = (0..n).map(|_| if rng.chance(1, 5) { 0 } else { 1 + rng.below(40) as usize }).collect();
+        let total: usize = sizes.iter().sum();
+        let sts = states(rng, n, false);
+        let kind = *rng.pick(&kinds[..4]);
+        let mut faults = vec![vec![]; n];
+        for f in faults.iter_mut() {
+            match rng.below(9) {
+                0 if kind != "squery" => *f = vec!['u'],
+                1 => *f = vec!['d'],
+                2 if kind != "pg" => *f = vec!['R'],
+                _ => {}
+            }
+        }
+        if rng.chance(1, 5) {
+            let j = rng.below(n as u64) as usize;
+            faults[j].push(*rng.pick(&['o', 'r', 's']));
+        }
+        let consumer = match rng.below(7) {
+            0 => Consumer::Slow,
+            1 => Consumer::Drop(rng.below(total as u64 + 2) as usize),
+            2 => Consumer::Timed,
+            _ => Consumer::Eager,
+        };
+        let mode = 4 + rng.below(4) as usize;
+        emit(set_mode(with_kind(fmt_case(false, consumer, &build(&sizes, &sts, &faults)), kind), mode));
+    }
 }
 
 /// Page SIZE in bytes as a dimension ("a final page of any size"): RESULT bodies of exactly 2^20-1, 2^20,
